@@ -89,6 +89,16 @@ theorem KInv_issue_kill (s : Sys) (op : OpSpec) (ts : Bool) (h : KInv s) (hk : o
   simp only [issueBase, kFold_append, hk, kRun, List.foldl_cons, List.foldl_nil, C04.killStep]
   exact ⟨h.1, fun _ => trivial⟩
 
+/-- the kill signal is taken out of the control channel and on_stop(killed = true) begins -/
+theorem KInv_consume (s s' : Sys) (h : KInv s) (hts : s.termSlot = true)
+    (hev : s'.ev = s.ev ++ [Ev.termConsumed, Ev.stopStart true]) (ht : s'.termSlot = false) : KInv s' := by
+  obtain ⟨h1, h2⟩ := h
+  have h2' := h2 hts
+  unfold KInv
+  rw [hev, ht]
+  simp only [kFold_append, kRun, List.foldl_cons, List.foldl_nil, C04.killStep, h1, h2']
+  simp
+
 theorem KInv_step (s s' : Sys) (l : Label) (h : KInv s) (hs : step? s l = some s') : KInv s' := by
   cases l with
   | issue hd op =>
@@ -123,6 +133,13 @@ theorem KInv_step (s s' : Sys) (l : Label) (h : KInv s) (hs : step? s l = some s
         · exact KInv_neutral s _ _ h rfl rfl rfl
         · exact KInv_of_eq h rfl rfl
     · cases hs
+  | pollMail =>
+    simp only [step?] at hs
+    (repeat' split at hs) <;> (try cases hs)
+    all_goals first
+      | exact KInv_of_eq h rfl rfl
+      | exact KInv_neutral s _ _ h rfl rfl rfl
+      | (rename_i hts; exact KInv_consume s _ h hts rfl rfl)
   | _ =>
     simp only [step?, Sys.runStep] at hs
     (repeat' split at hs) <;> (try cases hs)
